@@ -510,7 +510,17 @@ def run_trace(tr):
         cis_amp = None
         kwargs = {}
         try:
-            if mode == "reuse" and mol is not None:
+            if mode in ("again", "again_neg") and mol is not None:
+                # the same Molecule object evaluated again after an in-place move, WITHOUT handing amplitudes over: the
+                # package then uses the stored amplitudes only as the phase reference of the new ones. "again_neg"
+                # scripts that reference to the equivalent representation -(X, Y), so every state has to be re-phased.
+                _sp, xyz, _c, _m = M.batch(geoms)
+                with torch.no_grad():
+                    mol.coordinates.copy_(torch.as_tensor(xyz))
+                    if mode == "again_neg" and torch.is_tensor(mol.cis_amplitudes):
+                        mol.cis_amplitudes = -mol.cis_amplitudes
+                kwargs = dict(P0=mol.dm)
+            elif mode == "reuse" and mol is not None:
                 _sp, xyz, _c, _m = M.batch(geoms)
                 with torch.no_grad():
                     mol.coordinates.copy_(torch.as_tensor(xyz))
@@ -691,6 +701,12 @@ def sequences(tier):
                     steps.append(dict(mols=[(name, g) for g in perm2], mode="reuse"))
                     steps.append(dict(mols=[(name, g) for g in perm3], mode="reuse"))
                     T.append(dict(kind="seq", method="cis", tol=1e-6, n=3, best_guess=best, steps=steps))
+    # the same object evaluated again (phase alignment against the stored amplitudes), CIS and RPA
+    for name in mols:
+        for method in ("cis", "rpa"):
+            for m2, m3 in (("again", "again_neg"), ("again_neg", "again"), ("again_neg", "again_neg")):
+                steps = [dict(mols=[(name, 0)], mode="fresh"), dict(mols=[(name, 1)], mode=m2), dict(mols=[(name, 2)], mode=m3)]
+                T.append(dict(kind="seq", method=method, tol=1e-6, n=3, best_guess=True, steps=steps))
     # scripted initial guesses (fresh molecule, raw guess path), each followed by two reuse steps
     for name in mols:
         for kind in ("s_perm", "s_mix", "s_high", "s_unit", "s_ao"):
